@@ -11,11 +11,18 @@ from ak import conn_http as H  # noqa: E402
 from ak.mcaller_http import MCallerHttp, method_http  # noqa: E402
 from vf.core import sig_of  # noqa: E402
 
+# building the real urllib opener loads the system certificates (35 ms per connection); the checks
+# replace the opener by a recording fake anyway, so its construction is stubbed when possible
+_impl = getattr(H, "_HttpConnImpl", None)
+if _impl is not None and hasattr(_impl, "_make_opener"):
+    _impl._make_opener = staticmethod(lambda *args, **kwargs: None)
+
 ID = "C17"
 LEVEL = "exploration"
 RULE = ("chains of 1-5 wrappers over one address given as str, list, tuple or dict (with and without trailing slash) (HttpConn with 0-2 adapters given as list or single object, "
         "BAuthConn, ClientAuthConn, TokenAuthConn - at most one authenticating layer -, path prefixes with and "
-        "without slashes, response recorders); histories on shared connections: request through X, derive Y from "
+        "without slashes, response recorders and response processors returning falsy members of the body); 30% of the histories "
+        "with DEBUG logging of ak.conn_http switched on; histories on shared connections: request through X, derive Y from "
         "X, request through Y, through X again, add_adapter on a derived connection, two derivations from one adapters list object, MCallerHttp subclass with "
         "_HTTP_PREFIX_MAP built on X, clone() with None / one adapter / list, calls through the clone and through "
         "the original caller (cached prefixed connections), request through X again; arguments: all five verbs, "
@@ -26,12 +33,12 @@ RULE = ("chains of 1-5 wrappers over one address given as str, list, tuple or di
 ASSUMPTIONS = ["adapters passed to clone() as a tuple are not exercised (the property speaks of one adapter or a list)",
                "X-Request-ID header is ignored here (C16)"]
 TIERS = {
-    "quick": {"shards": 8, "cases": 350, "timeout": 300},
-    "thorough": {"shards": 16, "cases": 8000, "timeout": 3000},
+    "quick": {"shards": 4, "cases": 2000, "timeout": 300},
+    "thorough": {"shards": 16, "cases": 20000, "timeout": 3000},
 }
-FLOORS = {"quick": {"distinct_nontrivial": 300, "requests_checked": 25000, "clone_with_list": 600,
-                    "requests_through_original_after_derivation": 5000, "caller_objects_checked": 8000,
-                    "response_adapter_orders_checked": 25000},
+FLOORS = {"quick": {"distinct_nontrivial": 800, "requests_checked": 80000, "clone_with_list": 2000,
+                    "requests_through_original_after_derivation": 15000, "caller_objects_checked": 30000,
+                    "response_adapter_orders_checked": 80000},
           "thorough": {"distinct_nontrivial": 25000, "requests_checked": 1200000, "clone_with_list": 30000,
                        "requests_through_original_after_derivation": 300000, "caller_objects_checked": 400000,
                        "response_adapter_orders_checked": 1200000}}
@@ -44,7 +51,7 @@ TECHNIQUE = "runtime monitoring: expected-request model over histories of reques
 
 class Resp:
     def __init__(self, method):
-        self.data = b'{"r": 1}'
+        self.data = b'{"r": 1, "zero": 0, "empty": [], "none": null, "txt": ""}'
         self._method = method
         self.code = 200
 
@@ -77,6 +84,22 @@ class Rec(H.RequestAdapter):
 
     def process_response(self, rv):
         self.log.append(self.tag)
+        return rv
+
+
+RESPONSE = {"r": 1, "zero": 0, "empty": [], "none": None, "txt": ""}
+
+
+class Unwrap(H.RequestAdapter):
+    """response processor that replaces the decoded body by one of its members (often falsy)"""
+    def __init__(self, key, log):
+        self.key = key
+        self.log = log
+
+    def process_response(self, rv):
+        self.log.append("u:" + self.key)
+        if isinstance(rv, dict) and self.key in rv:
+            return rv[self.key]
         return rv
 
 
@@ -129,6 +152,10 @@ def build(rng, log):
                     p = rng.choice(["/x", "/y/", "z", "/v1"])
                     ads.append(H.RequestAdapterAddPathPrefix(p))
                     own.append(('prefix', p))
+                elif rng.random() < 0.25:
+                    key = rng.choice(["zero", "empty", "none", "txt", "r"])
+                    ads.append(Unwrap(key, log))
+                    own.append(('unwrap', key))
                 else:
                     tag = "t%d" % rng.randrange(10 ** 6)
                     ads.append(Rec(tag, log))
@@ -171,8 +198,19 @@ def expected(address, layers, path, method, params, data, headers):
     else:
         body = json.dumps(data).encode()
         hdr.setdefault('Content-Type', 'application/json')
-    rec = [a[1] for a in reversed(order) if a[0] == 'rec']
+    rec = [a[1] if a[0] == 'rec' else "u:" + a[1] for a in reversed(order) if a[0] in ('rec', 'unwrap')]
     return url, method, hdr, body, rec
+
+
+def expected_return(layers):
+    """what the request returns: the decoded body pushed through the response processors in
+    reverse order of the adapters"""
+    order = [a for layer in reversed(layers) for a in layer]
+    rv = dict(RESPONSE)
+    for a in reversed(order):
+        if a[0] == 'unwrap' and isinstance(rv, dict) and a[1] in rv:
+            rv = rv[a[1]]
+    return rv
 
 
 class Stop(Exception):
@@ -180,6 +218,25 @@ class Stop(Exception):
 
 
 def run_history(ctx, rng, case):
+    import logging
+    lg = logging.getLogger("ak.conn_http")
+    old_level, old_prop = lg.level, lg.propagate
+    debug_on = rng.random() < 0.3
+    if debug_on:
+        # detailed logging switched on (as `-vvv` of a script does): requests must be the same
+        lg.setLevel(logging.DEBUG)
+        lg.propagate = False
+        if not lg.handlers:
+            lg.addHandler(logging.NullHandler())
+        ctx.count("histories_with_debug_logging")
+    try:
+        return _run_history(ctx, rng, case)
+    finally:
+        lg.setLevel(old_level)
+        lg.propagate = old_prop
+
+
+def _run_history(ctx, rng, case):
     log = []
     steps = []
 
@@ -244,8 +301,10 @@ def run_history(ctx, rng, case):
                 fail("request-raises", {"step": tag, "type": type(err).__name__, "msg": str(err)[:150]})
             if len(op.reqs) != n_before + 1:
                 fail("not-exactly-one-request-sent", {"step": tag, "sent": len(op.reqs) - n_before})
-            if ret != {"r": 1}:
-                fail("response-not-decoded", {"step": tag, "got": repr(ret)[:80]})
+            want_ret = expected_return(lay)
+            if ret != want_ret or type(ret) is not type(want_ret):
+                fail("returned-value-differs-from-processed-response", {"step": tag, "got": repr(ret)[:80],
+                                                                        "expected": repr(want_ret)[:80]})
             ctx.count("caller_objects_checked")
             if (params, data, headers) != keep:
                 fail("caller-objects-modified", {"step": tag, "before": repr(keep), "after": repr((params, data, headers))})
